@@ -662,6 +662,8 @@ def run_one(ctx, res, case, make_observers, after=None, nontrivial=None, i=0):
             res.violation('scheduler-loop-died',
                           'child loop raised %r' % sim.pair.child_error,
                           {'case': case, 'trace': sim.trace if sim else None})
+        elif isinstance(e, TimeoutError):
+            res.inconc('scheduler history: %r' % e)
         else:
             res.violation('history-stuck', repr(e),
                           {'case': case, 'trace': sim.trace if sim else None})
